@@ -107,6 +107,10 @@ impl ContinuityStreamCache {
         }
 
         let continuity_id = event.stream_id();
+        #[cfg(feature = "verif")]
+        rip_kernel::verif::point_with("cont.cache.enter", || {
+            format!("{} {}", continuity_id, event.seq)
+        });
         let path = self.path_for(continuity_id);
         if let Some(parent) = path.parent() {
             let _ = fs::create_dir_all(parent);
@@ -127,12 +131,16 @@ impl ContinuityStreamCache {
         if writer.write_all(line.as_bytes()).is_err() {
             return;
         }
+        #[cfg(feature = "verif")]
+        rip_kernel::verif::point("cache.sidecar.after_body", continuity_id);
         if writer.write_all(b"\n").is_err() {
             return;
         }
         if writer.flush().is_err() {
             return;
         }
+        #[cfg(feature = "verif")]
+        rip_kernel::verif::point("cache.sidecar.written", continuity_id);
 
         // Best-effort indexes (rebuildable caches) to avoid full sidecar scans.
         if event.seq.is_multiple_of(SEEK_INDEX_STRIDE_EVENTS_V1) {
@@ -141,6 +149,8 @@ impl ContinuityStreamCache {
                 &seek_path,
                 &SeqSeekIndexEntryV1::new(event.seq, offset),
             );
+            #[cfg(feature = "verif")]
+            rip_kernel::verif::point("cache.seek.written", continuity_id);
         }
         if matches!(
             &event.kind,
@@ -148,6 +158,8 @@ impl ContinuityStreamCache {
         ) {
             let msg_path = message_index_path(&self.dir, continuity_id);
             insert_message_best_effort_v1(&msg_path, &path, &event.id, event.seq, offset);
+            #[cfg(feature = "verif")]
+            rip_kernel::verif::point("cache.msgidx.written", continuity_id);
         }
 
         // Additional cache: messages+runs-only sidecar + indexes.
@@ -155,6 +167,10 @@ impl ContinuityStreamCache {
 
         // Additional cache: compaction checkpoints only (summary selection).
         self.append_compaction_checkpoints_best_effort_v1(event);
+        #[cfg(feature = "verif")]
+        rip_kernel::verif::point_with("cont.cache.exit", || {
+            format!("{} {}", continuity_id, event.seq)
+        });
     }
 
     pub(crate) fn rebuild_best_effort(&self, continuity_id: &str, events: &[Event]) {
@@ -166,6 +182,8 @@ impl ContinuityStreamCache {
         let Ok(file) = File::create(&path) else {
             return;
         };
+        #[cfg(feature = "verif")]
+        rip_kernel::verif::point("cache.rebuild.created", continuity_id);
         let mut writer = BufWriter::new(file);
         let mut offset: u64 = 0;
         let mut index_builder = SidecarIndexBuilderV1::new();
@@ -180,13 +198,23 @@ impl ContinuityStreamCache {
             let _ = writer.write_all(line.as_bytes());
             let _ = writer.write_all(b"\n");
             offset = offset.saturating_add(line.len() as u64 + 1);
+            #[cfg(feature = "verif")]
+            rip_kernel::verif::point("cache.rebuild.line", continuity_id);
         }
         let _ = writer.flush();
+        #[cfg(feature = "verif")]
+        rip_kernel::verif::point("cache.rebuild.written", continuity_id);
 
         let _ = index_builder.write_best_effort(&self.dir, continuity_id);
+        #[cfg(feature = "verif")]
+        rip_kernel::verif::point("cache.rebuild.indexed", continuity_id);
 
         self.rebuild_messages_runs_best_effort_v1(continuity_id, events);
+        #[cfg(feature = "verif")]
+        rip_kernel::verif::point("cache.rebuild.mr", continuity_id);
         self.rebuild_compaction_checkpoints_best_effort_v1(continuity_id, events);
+        #[cfg(feature = "verif")]
+        rip_kernel::verif::point("cache.rebuild.done", continuity_id);
     }
 
     fn append_messages_runs_best_effort_v1(&self, event: &Event) {
@@ -221,12 +249,16 @@ impl ContinuityStreamCache {
         if writer.write_all(line.as_bytes()).is_err() {
             return;
         }
+        #[cfg(feature = "verif")]
+        rip_kernel::verif::point("cache.mr.after_body", continuity_id);
         if writer.write_all(b"\n").is_err() {
             return;
         }
         if writer.flush().is_err() {
             return;
         }
+        #[cfg(feature = "verif")]
+        rip_kernel::verif::point("cache.mr.written", continuity_id);
 
         // Best-effort indexes (rebuildable caches).
         let seek_path = self.messages_runs_seq_index_path_v1(continuity_id);
@@ -237,12 +269,18 @@ impl ContinuityStreamCache {
                 &seek_path,
                 &SeqSeekIndexEntryV1::new(event.seq, offset),
             );
+            #[cfg(feature = "verif")]
+            rip_kernel::verif::point("cache.mrseek.written", continuity_id);
         }
         if matches!(&event.kind, EventKind::ContinuityMessageAppended { .. }) {
             let msg_path = self.messages_runs_message_index_path_v1(continuity_id);
             insert_message_best_effort_v1(&msg_path, &path, &event.id, event.seq, offset);
+            #[cfg(feature = "verif")]
+            rip_kernel::verif::point("cache.mrmsg.written", continuity_id);
             let ord_path = self.messages_runs_message_ordinal_index_path_v1(continuity_id);
             append_message_record_best_effort_v1(&ord_path, event.seq, &event.id);
+            #[cfg(feature = "verif")]
+            rip_kernel::verif::point("cache.mrord.written", continuity_id);
         }
     }
 
@@ -278,10 +316,14 @@ impl ContinuityStreamCache {
             return;
         }
         let _ = writer.flush();
+        #[cfg(feature = "verif")]
+        rip_kernel::verif::point("cache.comp.written", continuity_id);
 
         if let Some(entry) = CompactionCheckpointIndexEntryV1::from_event(event) {
             let idx_path = self.compaction_checkpoints_index_path_for_v1(continuity_id);
             append_compaction_checkpoint_index_entry_best_effort_v1(&idx_path, &entry);
+            #[cfg(feature = "verif")]
+            rip_kernel::verif::point("cache.compidx.written", continuity_id);
         }
     }
 
@@ -1690,6 +1732,8 @@ fn scan_sidecar_backwards(
     mode: ParseMode,
     end_pos: Option<u64>,
 ) -> io::Result<SidecarBackwardScan> {
+    #[cfg(feature = "verif")]
+    rip_kernel::verif::point("cache.scan", continuity_id);
     let file_len = file.metadata()?.len();
     let end_pos = end_pos.unwrap_or(file_len).min(file_len);
     if end_pos == 0 {
